@@ -422,6 +422,66 @@ def forgery_work(arg):
 
 
 # ---------------------------------------------------------------------------
+# part 2b: after the honest handshake the agreed key and token stay agreed
+
+def rewrite_seq(d, seq, mseq):
+    """rewrite the (unsigned) datagram and message sequence numbers of a CRC-form datagram and fix the CRC"""
+    body = d[:8] + struct.pack(">H", seq) + d[10:20] + struct.pack(">H", mseq) + d[22:-4]
+    return body + struct.pack(">L", binascii.crc32(body) & 0xFFFFFFFF)
+
+
+def post_handshake_work(arg):
+    """handshake-typed datagrams injected AFTER both ends agreed on a key: neither end may change key or token"""
+    viols = {}
+    total = 0
+    other = honest_capture(root_index=0, key_offset=7, rnd_seed=3)
+    mon = HandshakeMonitor()
+    w = World(root_index=0, key_offset=1, monitors=[mon])
+    try:
+        w.run_until_connected()
+        w.run(3)
+        c, sc = w.clients[0].conn, w.server_conn(0)
+        agreed = (c.session_key_bytes, c.token)
+        own = {}
+        for x in w.all_sent:
+            own.setdefault(x.data[12], x.data)
+        cands = []
+        for base_label, base in (("signed hello of another session of this server", other["SH"]), ("this session's own signed hello", own[SH])):
+            for seq_label, seq in (("fresh seq", int(c.bitfield_pkt.current_seqnum) + 1), ("seq +100", int(c.bitfield_pkt.current_seqnum) + 100), ("original seq", None)):
+                for m_label, mseq in (("fresh msg seq", int(c.bitfield_msg.current_seqnum) + 1), ("original msg seq", None)):
+                    d = base
+                    if seq is not None or mseq is not None:
+                        d = rewrite_seq(base, seq if seq is not None else struct.unpack(">H", base[8:10])[0], mseq if mseq is not None else struct.unpack(">H", base[20:22])[0])
+                    cands.append(("to client: %s, %s, %s" % (base_label, seq_label, m_label), "c0", d))
+        for base_label, base in (("client hello of another session", other["CH"]), ("this session's own client hello", own[CH]), ("challenge response of another session", other["CR"])):
+            for seq_label, seq in (("fresh seq", int(sc.bitfield_pkt.current_seqnum) + 1), ("original seq", None)):
+                d = base
+                if seq is not None and base[12] != CR:
+                    d = rewrite_seq(base, seq, int(sc.bitfield_msg.current_seqnum) + 1)
+                cands.append(("to server: %s, %s" % (base_label, seq_label), "s", d))
+        for label, dst, d in cands:
+            total += 1
+            if dst == "s":
+                w.inject("s", d, client_addr=w.clients[0].addr)
+            else:
+                w.inject("c0", d)
+            w.run(3)
+            c2, sc2 = w.clients[0].conn, w.ctxt.connections.get(w.clients[0].addr)
+            now = (c2.session_key_bytes, c2.token)
+            srv = (sc2.session_key_bytes, sc2.token) if sc2 is not None else None
+            if now != agreed or srv != agreed:
+                viols.setdefault(("key-agreement", "after an honest handshake a handshake-typed datagram makes an endpoint give up the agreed key/token (%s)" % ("client" if now != agreed else "server")),
+                                 [0, {"part": "post-handshake", "label": label}, label])[0] += 1
+                break
+        mon.check_clients(w, w.root_key.getPublicKey())
+        for oracle, sig, msg in mon.violations:
+            viols.setdefault((oracle, sig), [0, {"part": "post-handshake"}, msg])[0] += 1
+    finally:
+        w.close()
+    return total, viols
+
+
+# ---------------------------------------------------------------------------
 # part 3: schedules
 
 def scenario(params, ch):
@@ -499,6 +559,10 @@ def run(tier, seed):
         for k, v in r[1].items():
             f_out.inc(k, v)
         fold(r[2])
+    res = core.pmap("checks.c02", "post_handshake_work", [0])
+    n_post = sum(r[0] for r in res)
+    for r in res:
+        fold(r[1])
     plist = [(1, None, o, l) for o, l in (("cs", 1), ("sc", 0), ("cs", 0), ("sc", 1))]
     plist += [(2, None, "cs", 1), (2, "SH", "cs", 1), (2, "CR", "cs", 1), (2, "CR-data", "cs", 1)]
     if tier == "thorough":
@@ -516,9 +580,9 @@ def run(tier, seed):
     rep.coverage = {
         "states": st.points + n_bytes + n_forg, "transitions": st.steps + 14 * (n_bytes + n_forg), "traces_validated_against_impl": st.executions + n_bytes + n_forg,
         "byte_mutants": n_bytes, "byte_mutant_outcomes": dict(outcomes), "byte_mutants_still_connecting_both_ends": accepted,
-        "forgeries": n_forg, "forgery_outcomes": dict(f_out),
+        "forgeries": n_forg, "forgery_outcomes": dict(f_out), "post_handshake_injections": n_post,
         "schedule_executions": st.executions, "schedule_by_deviations": st.by_cost, "schedule_configurations": len(plist), "schedule_capped": st.capped,
-        "evaluations": n_bytes + n_forg + st.executions, "distinct_nontrivial": len(outcomes) + len(f_out) + len(st.outcomes),
+        "evaluations": n_bytes + n_forg + n_post + st.executions, "distinct_nontrivial": len(outcomes) + len(f_out) + len(st.outcomes),
         "rule": "one fresh real handshake per substitution; outcomes = (client status, client has key, server promoted, #connect events); "
                 "byte mutants that still complete the handshake only touch unsigned header bytes (oracle (a) holds for them)",
         "exhaustive": not st.capped,
@@ -536,6 +600,9 @@ def replay(witness):
         bytes_work_init("quick")
         which = {"SH": SH, "CR": CR, "CH": CH}[witness["datagram"]]
         total, outcomes, viols = bytes_work([(witness["datagram"], which, witness["pos"], witness["xor"], witness["crc_fix"])])
+        return [core.Violation(k[0], k[1], witness, v[2]) for k, v in viols.items()]
+    if part == "post-handshake":
+        total, viols = post_handshake_work(0)
         return [core.Violation(k[0], k[1], witness, v[2]) for k, v in viols.items()]
     if part == "schedules":
         ch = explore.replay_choices(scenario, _tup(witness["params"]), witness["choices"])
